@@ -59,6 +59,7 @@ class Gen:
         self.n = 0
         self.freed = []  # names freed by deletions (for re-use)
         self.freed_rails = []  # rail names dropped by edits (for re-use)
+        self.pending = []  # operations queued to follow the previous one directly
         self.last_table = None  # set by the session: {name: row} of last solve
 
     # ------------------------------------------------------------------
@@ -116,12 +117,24 @@ class Gen:
                 vals.sort()
             return vals
 
-        if self.r.chance(0.5):
+        if self.r.chance(0.5) or self.cfg.get("micro"):
+            # (micro class: 1-D only -- a 2-D grid whose io steps are 1e-9 of the
+            # vi coordinates is not a well-conditioned table)
             return {"vi": [round(abs(vnom), 3)], "io": ios, key: [row()]}
         nvi = self.r.randint(2, 4)
         vis = sorted(set(round(abs(vnom) * f, 3) for f in self.r.sample([0.3, 0.5, 0.8, 0.9, 1.1, 1.2, 2.0], nvi)))
         if len(vis) < 2:
             vis = [round(abs(vnom) * 0.5, 3), round(abs(vnom) * 1.5, 3)]
+        # well-conditioned 2-D grids only: every axis step at least 2e-4 of the
+        # largest coordinate (the documented premise for tabulated parameters)
+        bound = 2e-4 * max(max(vis), max(ios))
+        keep = [ios[0]]
+        for x in ios[1:]:
+            if x - keep[-1] >= bound:
+                keep.append(x)
+        if len(keep) < 2 or min(b - a for a, b in zip(vis, vis[1:])) < bound:
+            return {"vi": [round(abs(vnom), 3)], "io": ios, key: [row()]}
+        ios = keep
         if self.r.chance(self.cfg["tables2d_general"]):
             rows = [row() for _ in vis]
         else:
@@ -440,6 +453,21 @@ class Gen:
             rail = self.r.wpick([("", 3), (m.rails.get(n, ""), 2), (self.fresh_rail(m), 2)])
         return {"op": "change_comp", "name": n, "comp": spec, "group": self.group(), "rail": rail}
 
+    def op_move(self, m):
+        """Move a leaf under another parent: delete it and add it again (the
+        component count is the same before and after)."""
+        leaves = [n for n in m.order if not m.children(n) and m.kind(n) != "Source" and len(m.parents[n]) == 1]
+        if not leaves:
+            return None
+        n = self.r.pick(leaves)
+        targets = [p for p in self.can_parent(m) if p != n and p != m.parents[n][0]]
+        if not targets:
+            return None
+        t = self.r.pick(targets)
+        spec = copy.deepcopy(m.comps[n])
+        self.pending.append({"op": "add_comp", "parent": self.parent_ref(m, t), "comp": spec, "group": m.groups[n], "rail": m.rails[n]})
+        return {"op": "del_comp", "name": n, "del_childs": True, "note": "move"}
+
     def op_near_limits(self, m):
         """Replace a component by itself with limits placed around the values
         of its last solved row (inside / outside / exactly on / negative)."""
@@ -469,6 +497,10 @@ class Gen:
             if chain:
                 n = self.r.pick(chain)
                 dc = False
+                below = [c for c in m.children(n) if c in chain and c != mux]
+                if below and self.r.chance(0.6):
+                    # ... and then the next link of the same chain, top-down
+                    self.pending.append({"op": "del_comp", "name": below[0], "del_childs": False})
         if m.del_ambiguous(n, dc):
             dc = True
         return {"op": "del_comp", "name": n, "del_childs": dc}
